@@ -111,18 +111,25 @@ func VH_C15_remote_ops() {
 
 	switch op {
 	case "tell":
-		c.Tell(ref, &vhUser{Payload: []byte{1, vrtUint8()}})
+		x, y := vrtUint8(), vrtUint8()
+		c.Tell(ref, &vhUser{Payload: []byte{1, x, y}})
 		n.pump()
 		vrtAssert(vhCountSeen[*vhUser](ta) == 1, "remote-tell-delivers-once")
+		for _, m := range ta.seen {
+			if u, ok := m.(*vhUser); ok {
+				vrtAssert(len(u.Payload) == 3 && u.Payload[1] == x && u.Payload[2] == y, "remote-tell-carries-the-message-value")
+			}
+		}
 	case "kill-immediate", "kill-poison":
-		c.Kill(ref, op == "kill-poison", "bye")
+		reason := vhStr(3)
+		c.Kill(ref, op == "kill-poison", reason)
 		n.pump()
 		vrtAssert(t.state == killed, "remote-kill-terminates-target")
 		k := vhIndexOf("target", vhIsKill)
 		vrtAssert(k >= 0, "remote-kill-delivers-onkill")
 		if k >= 0 {
 			ok := vhLog[k].msg.(*vivid.OnKill)
-			vrtAssert(ok.Poison == (op == "kill-poison") && ok.Reason == "bye", "onkill-fields-survive")
+			vrtAssert(ok.Poison == (op == "kill-poison") && ok.Reason == reason, "onkill-fields-survive")
 			vrtAssert(ok.Killer != nil && ok.Killer.Equals(c.ref), "onkill-names-the-killer")
 		}
 	case "watch", "unwatch":
@@ -147,11 +154,15 @@ func VH_C15_remote_ops() {
 			vrtAssert(notice == 0, "unwatch-stops-the-notice")
 		}
 	case "ping":
-		f := c.Ask(ref, &messages.PingMessage{Time: time.Unix(0, vrtInt64())}, time.Minute)
+		ns := vrtInt64()
+		f := c.Ask(ref, &messages.PingMessage{Time: time.Unix(0, ns)}, time.Minute)
 		n.pump()
 		m, err := f.Result()
-		_, isPong := m.(*messages.PongMessage)
+		pong, isPong := m.(*messages.PongMessage)
 		vrtAssert(err == nil && isPong, "remote-ping-returns-pong")
+		if isPong {
+			vrtAssert(pong.Ping != nil && pong.Ping.Time.UnixNano() == ns, "pong-echoes-the-ping")
+		}
 	case "ask-reply":
 		f := c.Ask(ref, &vhUser{Payload: []byte{9}}, time.Minute)
 		n.pump()
